@@ -188,9 +188,92 @@ def contexts(t):
             'client_out_src': mk(b['task']), 'client_out_tgt': mk(b['client'])}
 
 
+def run_two_sessions(rp, nfiles, interleave):
+    """two sessions on one client host, each with a task manager staging a task with the SAME uid (every session has
+    a task.000000) through the real tmgr staging_input Default with Tarball directives, then the real agent
+    staging_input.  With `interleave`, session B's whole client-side staging runs while A is between packing and
+    shipping its tarball (B's stager is entered from A's first transfer).  Returns per session what its task
+    sandbox holds for each directive target, and the state its task is in after input staging."""
+    import copy, shutil
+    roots = [tempfile.mkdtemp(prefix='c11_two_') for _ in range(2)]
+    cwd = os.getcwd()
+    try:
+        trees = [stagelib.Tree(r, sid='rp.session.verif.%04d' % k) for k, r in enumerate(roots)]
+        uid, tasks, want, comps = 'task.000000', [], [], []
+        for k, tree in enumerate(trees):
+            sds, w = [], {}
+            for i in range(nfiles[k]):
+                name = 'in_%d_%d.dat' % (k, i)
+                with open(os.path.join(tree.client, name), 'w') as f: f.write('session %d file %d' % (k, i))
+                sds.append({'source': 'client:///' + name, 'target': 'task:///got_%d.dat' % i, 'action': 'Tarball'})
+                w['got_%d.dat' % i] = 'session %d file %d' % (k, i)
+            d = {'executable': '/bin/true', 'input_staging': sds, 'output_staging': [], 'stage_on_error': False}
+            tasks.append(tree.task_dict(rp, uid, d)); want.append(w)
+            comps.append(stagelib.make_stagers(rp, tree))
+        tinA, tinB = comps[0][0], comps[1][0]
+        fired = []
+        if interleave:
+            orig = tinA._stager.handle_staging_directive
+            def hooked(sd):
+                if not fired:
+                    fired.append(True)
+                    here = os.getcwd(); os.chdir(trees[1].client)
+                    try:     tinB.work([tasks[1]])
+                    finally: os.chdir(here)
+                return orig(sd)
+            tinA._stager.handle_staging_directive = hooked
+        os.chdir(trees[0].client); tinA.work([tasks[0]])
+        if not fired:
+            os.chdir(trees[1].client); tinB.work([tasks[1]])
+        res = []
+        for k, tree in enumerate(trees):
+            tin, ain = comps[k][0], comps[k][1]
+            st = stagelib.last_state(tin, uid)
+            if st == 'AGENT_STAGING_INPUT_PENDING':
+                os.chdir(tree.psbox)
+                t2 = copy.deepcopy(tasks[k]); ain.work([t2])
+                st = stagelib.last_state(ain, uid)
+            got = {}
+            for name in want[k]:
+                p = os.path.join(tasks[k]['task_sandbox_path'], name)
+                got[name] = open(p).read() if os.path.isfile(p) else None
+            res.append({'state': st, 'got': got, 'want': want[k]})
+        return res
+    finally:
+        os.chdir(cwd)
+        for r in roots: shutil.rmtree(r, ignore_errors=True)
+
+
+def two_sessions_monitor(res):
+    for k, r in enumerate(res):
+        if r['state'] != 'AGENT_SCHEDULING_PENDING':
+            return ('two-sessions:input-staging-fails-although-all-sources-exist', 'session %d: task.000000 ended input staging in %s' % (k, r['state']))
+        for name, c in r['want'].items():
+            if r['got'].get(name) != c:
+                return ('two-sessions:input-target-does-not-hold-its-source',
+                        'session %d: %s holds %r, its source holds %r' % (k, name, r['got'].get(name), c))
+    return None
+
+
+def two_sessions_part(ctx, rp):
+    n = 0
+    for _ in range(ctx.n(6, 60)):
+        nfiles = [ctx.rng.randint(1, 3), ctx.rng.randint(1, 3)]
+        for interleave in (False, True):
+            res = run_two_sessions(rp, nfiles, interleave)
+            n += 1
+            ctx.case({'two_sessions': [nfiles, interleave]}, nontrivial=interleave)
+            bad = two_sessions_monitor(res)
+            if bad:
+                ctx.fail(bad[0], bad[1], {'kind': 'two_sessions', 'nfiles': nfiles, 'interleave': interleave}, observed=res)
+    ctx.obligation('two sessions staging a task of the same uid with Tarball directives, one after the other and interleaved '
+                   '(%d runs of the real client and agent input stagers): each task sandbox holds its own sources' % n, 'tie', True, '')
+
+
 def run(ctx):
     rp  = rpload.load()
     rng = ctx.rng
+    two_sessions_part(ctx, rp)
     import radical.utils as ru
     from radical.pilot.staging_directives import expand_staging_directives, complete_url
     src = os.path.join(os.path.dirname(os.path.dirname(rp.__file__)), 'pilot') if False else os.path.dirname(rp.__file__)
@@ -415,6 +498,11 @@ CORPUS = [_c_tarball, _c_on_error, _c_missing]
 def replay(ctx, data):
     rp = rpload.load()
     i = data['input']
+    if i.get('kind') == 'two_sessions':
+        res = run_two_sessions(rp, i['nfiles'], i['interleave'])
+        bad = two_sessions_monitor(res)
+        print('observed:', res, bad)
+        return not bad
     if i.get('kind') == 'urlctx':
         import radical.utils as ru
         from radical.pilot.staging_directives import complete_url
